@@ -210,6 +210,7 @@ def part_cross(sh, res):
     enc = 'utf-8'
     # Python writes, JS reads
     cases = []
+    py_bytes = []
     for t in tables:
         out = io.BytesIO()
         w = rc.CSVWriter(out, False, enc, dlm, pol)
@@ -217,6 +218,7 @@ def part_cross(sh, res):
             w.write(list(r))
         w.finish()
         data = out.getvalue()
+        py_bytes.append(data)
         cases.append({'op': 'read', 'mode': 'stream', 'encoding': enc, 'dlm': dlm, 'policy': pol, 'has_header': False, 'comment_prefix': None, 'pieces': [data.hex()] if data else []})
     # JS writes
     for t in tables:
@@ -233,7 +235,7 @@ def part_cross(sh, res):
         warns = [w for w in out.get('warnings', []) if not (ragged and 'not consistent' in w)]
         if out.get('records') != exp or warns or 'error' in out:
             res.violation('cross-roundtrip-py-to-js', {'kind': 'cross', 'table': t, 'dlm': dlm, 'policy': pol}, exp, out)
-    for t, out in zip(tables, outs[n:]):
+    for ti, (t, out) in enumerate(zip(tables, outs[n:])):
         exp = c10.norm_rfc(t) if pol == 'quoted_rfc' else t
         res.evaluations += 1
         res.traces += 1
@@ -244,6 +246,12 @@ def part_cross(sh, res):
             res.violation(sig, {'kind': 'cross', 'table': t, 'dlm': dlm, 'policy': pol}, exp, out)
             continue
         data = bytes.fromhex(out['hex'])
+        # "they quote fields identically": the two writers emit the same bytes for the same table
+        res.evaluations += 1
+        if data != py_bytes[ti]:
+            res.violation('writers-emit-different-bytes', {'kind': 'cross', 'table': t, 'dlm': dlm, 'policy': pol}, {'python_writer': py_bytes[ti].decode('utf-8', 'replace')}, {'js_writer': data.decode('utf-8', 'replace')})
+        else:
+            res.feat('writer_bytes_identical')
         try:
             it = rc.CSVRecordIterator(io.BytesIO(data), enc, dlm, pol)
             recs = it.get_all_records()
@@ -364,7 +372,7 @@ def main(tier, seed):
              'cross round trips on representable tables, header of all language-neutral select lists of <= 2 items; non-trivial = the line contains a quote / the field needs quoting / the file yields a warning or error / a header is produced',
         assumptions=['the quantifier\'s "random longer Unicode inputs" is not imitated by sampling; the seed rotates the ordinary character instead', 'header vocabulary restricted to forms both header parsers are specified for'],
         extra={'bounds': {'split': 8 if T else 7, 'quote': 6 if T else 5, 'read': 6 if T else 5}},
-        min_features={'split_cases': 50000, 'quote_cases': 10000, 'reader_cases': 100000, 'reader_cases_with_warning_or_error': 10000, 'cross_py_write_js_read': 1000, 'cross_js_write_py_read': 1000, 'header_cases': 500, 'byte_level_reader_cases': 50000, 'byte_level_undecodable': 10000, 'reader_comment_prefix_empty': 5000, 'reader_comment_prefix_two_chars': 5000})
+        min_features={'split_cases': 50000, 'quote_cases': 10000, 'reader_cases': 100000, 'reader_cases_with_warning_or_error': 10000, 'cross_py_write_js_read': 1000, 'cross_js_write_py_read': 1000, 'header_cases': 500, 'writer_bytes_identical': 10000, 'byte_level_reader_cases': 50000, 'byte_level_undecodable': 10000, 'reader_comment_prefix_empty': 5000, 'reader_comment_prefix_two_chars': 5000})
 
 
 def replay(rep):
